@@ -5,42 +5,34 @@
    (Spec/Modbus.ref_handle_frame over the same handler) are evaluated. Definitions only. *)
 From Coq Require Import NArith List String Bool.
 From Rodbus Require Import Base.Outcome Base.ServerTypes Base.Show Model.DbTypes Model.Database Model.Server Model.FfiServer Spec.Modbus.
+From Rodbus Require Import Spec.FfiWireSpec.
 Import ListNotations.
 Local Open Scope N_scope.
-
-Inductive item :=
-| IOps (ops : list op)               (* a batch of rodbus_database_* calls on unit 1's database *)
-| IFrame (u : N) (pdu : list N).     (* one MBAP request addressed to unit u *)
-
-Definition wire_units := ucfg (unit_state N).
-
-Definition apply_ops (units : wire_units) (ops : list op) : wire_units * list result :=
-  let '(d, n) := u_store units 1 in
-  let '(d', rs) := Database.run d ops in (with_store units (sset (u_store units) 1 (d', n)), rs).
 
 Local Open Scope string_scope.
 Definition show_reply (o : outcome serr (list N)) : string :=
   match o with Ok [] => "-" | Ok bs => show_bytes bs | Err _ => "ERR" | Panic => "PANIC" end.
 
 (* (rendered results, most recent first) *)
-Fixpoint run_items (model : bool) (units : wire_units) (tx : N) (items : list item) : list string * wire_units :=
+Fixpoint run_items (W : c_write_handler N) (model : bool) (units : wire_units) (tx : N) (items : list item) : list string * wire_units :=
   match items with
   | [] => ([], units)
   | IOps ops :: rest =>
       let '(units', rs) := apply_ops units ops in
-      let '(out, u') := run_items model units' tx rest in
+      let '(out, u') := run_items W model units' tx rest in
       (match rs with [] => out | _ => show_results rs :: out end, u')
   | IFrame u pdu :: rest =>
       let fr := {| f_tx := Some tx; f_dest := DUnit u; f_pdu := pdu |} in
       let '(reply, units') :=
-        if model then let '(o, us, _) := Server.handle_frame (ffi_handler prog_handler) LTcp NoAuth units fr in (show_reply o, us)
-        else let '(bs, us, _) := ref_handle_frame (ffi_handler prog_handler) LTcp NoAuth units fr in (show_reply (Ok bs), us) in
-      let '(out, u') := run_items model units' (tx + 1) rest in
+        if model then let '(o, us, _) := Server.handle_frame (ffi_handler W) LTcp NoAuth units fr in (show_reply o, us)
+        else let '(bs, us, _) := ref_handle_frame (ffi_handler W) LTcp NoAuth units fr in (show_reply (Ok bs), us) in
+      let '(out, u') := run_items W model units' (tx + 1) rest in
       (reply :: out, u')
   end.
 
 Definition callbacks_of (units : wire_units) : N := snd (u_store units 1).
 
-Definition run_wire (model : bool) (items : list item) : string :=
-  let '(out, units) := run_items model {| u_map := [(1, 1)]; u_store := fun _ => (db_empty, 0) |} 1 items in
+(* set = the application registered its write callbacks (prog2_handler), else none (null_handler) *)
+Definition run_wire (set : bool) (model : bool) (items : list item) : string :=
+  let '(out, units) := run_items (if set then prog2_handler else null_handler) model {| u_map := [(1, 1)]; u_store := fun _ => (db_empty, 0) |} 1 items in
   show_list (fun s => s) ";" out ++ ";cb=" ++ show_N (callbacks_of units).
